@@ -170,7 +170,7 @@ func (w *World) TaskCoq(t *TaskH) string {
 // ChainsCoq prints every version of every task's source as projected for the task.
 func (w *World) ChainsCoq() string {
 	var out []string
-	for _, t := range w.Tasks {
+	for _, t := range w.All {
 		node := w.Nodes[t.Info.SrcName]
 		for _, ch := range node.Hist.Versions {
 			var bs []string
@@ -204,7 +204,7 @@ func (w *World) chainBlk(t *TaskH, ch *Chain, b *Block) BlkID {
 // CaseCoq prints the whole case.
 func (w *World) CaseCoq() string {
 	var ts, es []string
-	for _, t := range w.Tasks {
+	for _, t := range w.All {
 		ts = append(ts, w.TaskCoq(t))
 	}
 	for _, e := range w.Rec.Events {
